@@ -80,13 +80,18 @@ def optJ (j : Json) (k : String) : Option J :=
   | .ok v => wireJ v
   | .error _ => none
 
+/-- the harness sends both views (request body, multipart form); which one `Parse` looks at is
+the model's decision (media type of the header), not the harness's -/
 def readInput (j : Json) : Input :=
-  let fb : Option Bool := match j.getObjVal? "fb" with
+  let isMp := mediaType (getStr j "header") = facts.multipartContentType
+  let fbOf (k : String) : Option Bool := match j.getObjVal? k with
     | .ok (.bool b) => some b
     | _ => none
   let nofit := (getArr j "nofit").map asStr
   { method := getStr j "method", header := getStr j "header",
-    payload := { firstBracket := fb, body := optJ j "body", formOk := getBool j "formOk",
+    payload := { firstBracket := if isMp then fbOf "opsFb" else fbOf "fb",
+                 body := if isMp then optJ j "ops" else optJ j "body",
+                 formOk := getBool j "formOk",
                  map := optJ j "map", files := (getArr j "files").map asStr },
     fits := fun r => !nofit.contains r }
 
